@@ -90,6 +90,9 @@ IN_MEM = ("mem.html", "mem2.html")
 NEAR_ONLY = ("near.html", "inc.html")
 CONFIGS = [(size, cl) for size in (0, 1, 2, 128) for cl in (False, True)]
 
+# exceptions that can only come from the generated modules / the harness itself, never a refusal by the library
+HARNESS_ERRORS = ("NameError", "SyntaxError", "IndentationError", "ImportError", "ModuleNotFoundError", "IndexError")
+
 KEY_F1 = "same-text-template-files-with-relative-include:include-resolved-against-first-compiled-file"
 KEY_F2 = "child-overrides-template-of-base-with-missing-file:render-raises-could-not-find"
 KEY_F3 = "get_template_name-returns-path-relative-to-component-file:TemplateDoesNotExist"
@@ -144,6 +147,20 @@ def world() -> World:
 
 
 _env_state: Dict[str, Any] = {}
+_regs: Dict[str, Any] = {}        # private registries, one per context mode and process (the library maps a start
+                                  # tag to one registry for the life of the process)
+
+
+def _registries() -> Dict[str, Any]:
+    if not _regs:
+        from django.template.library import Library
+        from django_components import ComponentFormatter, ComponentRegistry, RegistrySettings
+        for mode in ("django", "isolated"):
+            lib = Library()
+            reg = ComponentRegistry(library=lib, settings=RegistrySettings(
+                context_behavior=mode, tag_formatter=ComponentFormatter("x06" + mode[0])))
+            _regs[mode] = (reg, lib)
+    return _regs
 
 
 @contextmanager
@@ -152,9 +169,7 @@ def env(size: int, cached_loader: bool):
     Django's cached loader), a fresh template cache and private registries for both context modes."""
     from django.test.utils import override_settings
     from django.template import engines
-    from django.template.library import Library
     import django_components.cache as dcache
-    from django_components import ComponentFormatter, ComponentRegistry, RegistrySettings
     w = world()
     loaders: List[Any] = [("django.template.loaders.locmem.Loader", dict(w.mem)),
                           "django.template.loaders.filesystem.Loader",
@@ -168,10 +183,7 @@ def env(size: int, cached_loader: bool):
         dcache.template_cache = None
         eng = engines["django"].engine
         regs = {}
-        for mode in ("django", "isolated"):
-            lib = Library()
-            reg = ComponentRegistry(library=lib, settings=RegistrySettings(
-                context_behavior=mode, tag_formatter=ComponentFormatter("x06" + mode[0])))
+        for mode, (reg, lib) in _registries().items():
             eng.template_libraries["x06lib_" + mode] = lib
             regs[mode] = reg
         old = dict(_env_state)
@@ -184,7 +196,8 @@ def env(size: int, cached_loader: bool):
             dcache.template_cache = None
 
 
-def _level_source(i: int, rec: Dict[str, Any], dirs: List[int], uid: str, rnd: random.Random) -> str:
+def _level_source(i: int, rec: Dict[str, Any], dirs: List[int], uid: str, rnd: random.Random,
+                  gt_name: str = "get_template") -> str:
     """Python source of the module that defines class K<i>."""
     lines = ["from django.template import Template", "from django_components import Component"]
     if i > 1:
@@ -220,9 +233,7 @@ def _level_source(i: int, rec: Dict[str, Any], dirs: List[int], uid: str, rnd: r
             else:
                 ents.append(f"Template({text(r)!r})" if shared else f"(lambda: Template({text(r)!r}))")
         lines.append("_GT = [" + ", ".join(ents) + "]")
-        only_str = all(not r.startswith("o:") for r in rec["gt"])
-        name = "get_template_string" if only_str and rnd.random() < 0.3 else "get_template"   # [D5] legacy spelling
-        body += [f"    def {name}(self, context):", f"        r = _GT[{selexpr}]",
+        body += [f"    def {gt_name}(self, context):", f"        r = _GT[{selexpr}]",
                  "        return r() if callable(r) else r"]
     if not body:
         body.append("    pass")
@@ -244,9 +255,14 @@ class Chain:
         self.mods: List[str] = []
         self.files: List[Path] = []
         self.names: Dict[Tuple[int, str], Any] = {}
+        self.pages: Dict[Tuple[int, int, str], Any] = {}
         self.sources: List[str] = []
+        # [D5] the legacy spelling get_template_string (strings only) - one spelling per chain: the docs do not
+        # say what happens when a class has both methods
+        only_str = all(not r.startswith("o:") for rec in K["lv"] for r in rec["gt"])
+        gt_name = "get_template_string" if only_str and self.rnd.random() < 0.3 else "get_template"
         for i, rec in enumerate(K["lv"], start=1):
-            src = _level_source(i, rec, K["dirs"], self.uid, self.rnd)
+            src = _level_source(i, rec, K["dirs"], self.uid, self.rnd, gt_name)
             self.sources.append(src)
             if self.create_exc is not None:
                 self.classes.append(None)
@@ -276,6 +292,8 @@ class Chain:
         try:
             if route == "py":
                 out = cls.render(kwargs={"v": v, "sel": sel})
+            elif route == "py-response":
+                out = cls.render_to_response(kwargs={"v": v, "sel": sel}).content.decode()
             else:
                 mode = "django" if route == "tag-django" else "isolated"
                 key = (c, mode)
@@ -295,6 +313,32 @@ class Chain:
         if ev["obs"].startswith("undecodable"):
             ev["exc"] = repr(out)[:200]
         return ev
+
+    def render_pair(self, a: Tuple[int, int, int], b: Tuple[int, int, int], route: str) -> Optional[List[Dict[str, Any]]]:
+        """One page that uses two components one after the other ((c, sel, v) each): two render events, or None
+        when the page raised (the caller then renders them one by one)."""
+        from django.template import Context, Template
+        mode = "django" if route == "tag-django" else "isolated"
+        for c in (a[0], b[0]):
+            if self.classes[c - 1] is None:
+                return None
+            if (c, mode) not in self.names:      # registers the class and compiles its one-tag page
+                self.render(c, 0, 0, route)
+        t = "x06" + mode[0]
+        key = (a[0], b[0], mode)
+        if key not in self.pages:
+            na, nb = self.names[(a[0], mode)][0], self.names[(b[0], mode)][0]
+            self.pages[key] = Template("{% load x06lib_" + mode + " %}{% " + t + ' "' + na + '" v=v1 sel=s1 / %}#'
+                                       "{% " + t + ' "' + nb + '" v=v2 sel=s2 / %}')
+        try:
+            out = self.pages[key].render(Context({"v1": a[2], "s1": a[1], "v2": b[2], "s2": b[1]}))
+        except Exception:
+            return None
+        parts = out.split("#")
+        if len(parts) != 2:
+            return None
+        return [{"op": "render", "c": x[0], "sel": x[1], "obs": decode(part, x[2]), "exc": "",
+                 "route": route + "-pair"} for x, part in zip((a, b), parts)]
 
     def close(self) -> None:
         for (c, mode), (name, _) in self.names.items():
@@ -449,7 +493,8 @@ def run_row(row: Dict[str, Any], chain: Optional[Chain], forms: int, size: int) 
         chain = Chain(row["k"], forms)
     reset_template_cache()
     depth = len(row["k"]["lv"])
-    route = rnd.choice(["py", "py", "tag-django", "tag-isolated"])
+    route = rnd.choice(["py", "py-response", "tag-django", "tag-isolated"])
+    pairing = route.startswith("tag") and rnd.random() < 0.5
     evs: List[Dict[str, Any]] = []
     if row["hist"]:
         ops = [(h["op"], h["c"], h["sel"], h["exp"]) for h in row["hist"]]
@@ -460,14 +505,28 @@ def run_row(row: Dict[str, Any], chain: Optional[Chain], forms: int, size: int) 
         ops = [("render", c, s, row["table"][c - 1][s]) for c, s in pairs]
         if depth > 1 and rnd.random() < 0.3:
             ops.insert(rnd.randrange(1, len(ops)), ("clear", 0, 0, []))
-    for n, (op, c, s, exp) in enumerate(ops):
+    n = 0
+    while n < len(ops):
+        op, c, s, exp = ops[n]
         if op == "clear":
             clear_template_cache()
             evs.append({"op": "clear", "c": 0, "sel": 0, "obs": "-", "exc": ""})
+            n += 1
             continue
-        ev = chain.render(c, s, v=(forms + 31 * n) % 1000, route=route)
+        v = (forms + 31 * n) % 1000
+        # two components on one page (both are expected to render): the choices must stay apart within a page, too
+        if pairing and n + 1 < len(ops) and ops[n + 1][0] == "render" and "error" not in exp \
+                and "error" not in ops[n + 1][3]:
+            two = chain.render_pair((c, s, v), (ops[n + 1][1], ops[n + 1][2], v + 1), route)
+            if two is not None:
+                two[0]["exp"], two[1]["exp"] = exp, ops[n + 1][3]
+                evs += two
+                n += 2
+                continue
+        ev = chain.render(c, s, v=v, route=route)
         ev["exp"] = exp
         evs.append(ev)
+        n += 1
     return evs, chain
 
 
@@ -476,6 +535,7 @@ def _replay_chunk(args) -> Dict[str, Any]:
     bad: List[Dict[str, Any]] = []
     n_renders = 0
     nontrivial = []
+    errs: Dict[str, int] = {}
     with env(size, cl):
         chain: Optional[Chain] = None
         chain_key = None
@@ -494,13 +554,16 @@ def _replay_chunk(args) -> Dict[str, Any]:
             nontrivial.append(any(e["op"] == "render" and e["exp"] != ["error"] for e in evs)
                               or sum(1 for l in row["k"]["lv"] if l["st"] != "none" or l["gtn"] or l["gt"]) > 1)
             for n, ev in enumerate(evs):
+                if ev["op"] == "render" and ev["obs"] == "error":
+                    cls_ = ev["exc"].replace("creation: ", "").split(":")[0]
+                    errs[cls_] = errs.get(cls_, 0) + 1
                 if ev["op"] == "render" and ev["obs"] not in ev["exp"]:
                     bad.append({"row": {k: row[k] for k in ("k", "hist", "fam")}, "cfg": [size, cl], "forms": forms,
                                 "event": n, "events": evs[: n + 1],
                                 "key": finding_key(row["k"], ev, evs[:n], size)})
         if chain is not None:
             chain.close()
-    return {"bad": bad, "renders": n_renders, "nontrivial": nontrivial}
+    return {"bad": bad, "renders": n_renders, "nontrivial": nontrivial, "errs": errs}
 
 
 def replay_exported(chk: Check, items: List[Dict[str, Any]], workers: int = 6) -> None:
@@ -525,6 +588,11 @@ def replay_exported(chk: Check, items: List[Dict[str, Any]], workers: int = 6) -
         if not isinstance(res, dict) or "bad" not in res:
             raise MachineryError(f"replay chunk failed: {res!r}"[:300])
         chk.add("renders_replayed", res["renders"])
+        for k, n in res["errs"].items():
+            if k in HARNESS_ERRORS:
+                raise MachineryError(f"generated module or harness raised {k} (not a refusal by the library)")
+            ec = chk.cov.setdefault("refusal_exception_classes", {})
+            ec[k] = ec.get(k, 0) + n
         for row, nt in zip(rows, res["nontrivial"]):
             chk.count([row["k"], row["hist"], cfg], nontrivial=nt)
         for b in res["bad"]:
@@ -573,15 +641,20 @@ def _record_chunk(args) -> List[Dict[str, Any]]:
             chain = Chain(K, sd)
             reset_template_cache()
             evs = []
-            routes = ["py", "tag-django", "tag-isolated"]
+            routes = ["py", "py-response", "tag-django", "tag-isolated"]
             for n in range(rnd.randint(10, 24)):
                 if rnd.random() < 0.1:
                     clear_template_cache()
                     evs.append({"op": "clear", "c": 0, "sel": 0, "obs": "-", "exc": ""})
                     continue
-                ev = chain.render(rnd.randint(1, len(K["lv"])), rnd.randrange(4), v=rnd.randrange(1000),
-                                  route=rnd.choice(routes))
-                evs.append(ev)
+                pick = lambda: (rnd.randint(1, len(K["lv"])), rnd.randrange(4), rnd.randrange(1000))   # noqa: E731
+                route = rnd.choice(routes)
+                if route.startswith("tag") and rnd.random() < 0.3:
+                    a, b = pick(), pick()
+                    two = chain.render_pair(a, b, route)
+                    evs += two if two is not None else [chain.render(*a, route=route), chain.render(*b, route=route)]
+                    continue
+                evs.append(chain.render(*pick(), route=route))
             chain.close()
             out.append({"id": tid, "k": K, "size": size, "cached_loader": cl, "events": evs})
     return out
@@ -669,11 +742,12 @@ def random_traces(chk: Check, ntraces: int, workers: int = 6) -> None:
 
 
 # ---------------------------------------------------------------- entry points
-def _body(chk: Check, tier: str, small: bool = False) -> None:
+def _body(chk: Check, tier: str, small: bool = False, items: Optional[List[Dict[str, Any]]] = None) -> None:
     world()
-    items = export_all(chk, tier, small)
+    if items is None:
+        items = export_all(chk, tier, small)
     replay_exported(chk, items)
-    random_traces(chk, ntraces=120 if small else (600 if tier == "quick" else 6000))
+    random_traces(chk, ntraces=150 if small else (600 if tier == "quick" else 6000))
 
 
 def run(tier: str) -> int:
@@ -704,6 +778,243 @@ def run(tier: str) -> int:
     return chk.finish()
 
 
+# ---------------------------------------------------------------- selftest
+@contextmanager
+def _patched(pairs):
+    """pairs: (object, attribute name, new value); restored on exit."""
+    old = [(o, n, o.__dict__[n] if isinstance(o, type) else getattr(o, n)) for o, n, _ in pairs]
+    for o, n, v in pairs:
+        setattr(o, n, v)
+    try:
+        yield
+    finally:
+        for o, n, v in old:
+            setattr(o, n, v)
+
+
+def _repaired():
+    """The three proposed diffs, applied to a scratch copy of the sources and installed in-process (only the
+    definitions they touch): with them no case may fail and no finding key may be produced."""
+    import ast
+    import dataclasses
+    import shutil
+    import subprocess
+    import django_components
+    import django_components.component as dcomp
+    import django_components.component_media as cm
+    import django_components.template as dt
+    from .core import REPO, ROOT
+    w = workdir("x06fix")
+    dst = w / "src" / "django_components"
+    dst.mkdir(parents=True)
+    for f in ("template.py", "component_media.py", "component.py"):
+        shutil.copy(REPO / "src" / "django_components" / f, dst / f)
+    for key in (KEY_F1, KEY_F2, KEY_F3):
+        d = ROOT / "proposed_fixes" / f"X06-{key}.diff"
+        p = subprocess.run(["patch", "-p1", "-s", "-i", str(d)], cwd=str(w), capture_output=True, text=True)
+        if p.returncode != 0:
+            raise MachineryError(f"proposed fix does not apply to the current sources: {d.name}: {p.stdout[:200]}")
+
+    def defs(fname, live, names):
+        tree = ast.parse((dst / fname).read_text())
+        out = {}
+        for node in tree.body:
+            if isinstance(node, (ast.FunctionDef, ast.ClassDef)) and node.name in names:
+                ns = live.__dict__
+                code = compile(ast.Module(body=[node], type_ignores=[]), str(dst / fname), "exec")
+                scratch: Dict[str, Any] = {}
+                exec(code, ns, scratch)
+                out[node.name] = scratch[node.name]
+            if isinstance(node, ast.ClassDef) and node.name == "Component" and "Component._get_template" in names:
+                for sub in node.body:
+                    if isinstance(sub, ast.FunctionDef) and sub.name == "_get_template":
+                        code = compile(ast.Module(body=[sub], type_ignores=[]), str(dst / fname), "exec")
+                        scratch = {}
+                        exec(code, live.__dict__, scratch)
+                        out["Component._get_template"] = scratch["_get_template"]
+        missing = set(names) - set(out)
+        if missing:
+            raise MachineryError(f"patched {fname} lacks {missing}")
+        return out
+
+    cm.field = dataclasses.field
+    t = defs("template.py", dt, {"cached_template"})
+    m = defs("component_media.py", cm, {"ComponentMedia", "_get_comp_cls_attr", "_raise_load_error_or_return",
+                                       "_resolve_media", "resolve_component_relative_template_name"})
+    dcomp.resolve_component_relative_template_name = m["resolve_component_relative_template_name"]
+    c = defs("component.py", dcomp, {"Component._get_template"})
+    pairs = [(dt, "cached_template", t["cached_template"]), (dcomp, "cached_template", t["cached_template"]),
+             (django_components, "cached_template", t["cached_template"]),
+             (dcomp.Component, "_get_template", c["Component._get_template"])]
+    for name, obj in m.items():
+        if not hasattr(cm, name):
+            setattr(cm, name, obj)
+        pairs.append((cm, name, obj))
+    return _patched(pairs)
+
+
+def selftest(tier: str) -> int:
+    """In-process mutation probes (never touch /repo) + the proposed repairs."""
+    from . import boot
+    from .core import run_probes
+    boot.setup()
+    import django_components.component as dcomp
+    import django_components.component_media as cm
+    import django_components.template as dt
+    from django.core.exceptions import ImproperlyConfigured
+    from django.template import Template
+    from django.template.loader import get_template
+    Component = dcomp.Component
+    orig_get = Component.__dict__["_get_template"]
+
+    def near_not_preferred():
+        # the conversion of component-relative paths is lost: names go to the COMPONENTS / TEMPLATES dirs as written
+        return _patched([(cm, "_resolve_component_relative_files", lambda comp_cls, comp_media, comp_dirs: None)])
+
+    def precedence_instead_of_refusal():
+        # several sources given: the first one in a fixed order wins instead of ImproperlyConfigured
+        def _get_template(self, context, component_id):
+            name = self.get_template_name(context)
+            if name is not None:
+                return get_template(name).template
+            body = getattr(self, "get_template_string", self.get_template)(context)
+            if body is None:
+                body = self.template
+            if body is None:
+                raise ImproperlyConfigured("no template")
+            return dcomp.cached_template(body) if isinstance(body, str) else body
+        return _patched([(Component, "_get_template", _get_template)])
+
+    def template_memoised_per_class():
+        # "optimisation": the Template of a component class is looked up once
+        memo: Dict[Any, Any] = {}
+
+        def _get_template(self, context, component_id):
+            k = type(self)
+            if k not in memo:
+                memo[k] = orig_get(self, context, component_id)
+            return memo[k]
+        return _patched([(Component, "_get_template", _get_template)])
+
+    def cache_keyed_by_component():
+        # the template cache is keyed by the component (its template name) instead of the template text
+
+        def cached_template(template_string, template_cls=None, origin=None, name=None, engine=None):
+            cache = dt.get_template_cache()
+            key = ("by-name", name)
+            t = cache.get(key)
+            if t is None:
+                t = (template_cls or Template)(template_string, origin=origin, name=name, engine=engine)
+                cache.set(key, t)
+            return t
+        return _patched([(dt, "cached_template", cached_template), (dcomp, "cached_template", cached_template)])
+
+    def nothing_given_renders_empty():
+        def _get_template(self, context, component_id):
+            try:
+                return orig_get(self, context, component_id)
+            except ImproperlyConfigured as e:
+                if "must be set" in str(e):
+                    return Template("")
+                raise
+        return _patched([(Component, "_get_template", _get_template)])
+
+    def template_name_alias_dropped():
+        # the metaclass no longer moves a class-body `template_name` to `template_file`
+        def __new__(mcs, name, bases, attrs):
+            attrs["template_name"] = dcomp.ComponentTemplateNameDescriptor()
+            return cm.ComponentMediaMeta.__new__(mcs, name, bases, attrs)
+        return _patched([(dcomp.ComponentMeta, "__new__", staticmethod(__new__))])
+
+    def legacy_get_template_string_ignored():
+        # [D5] the lookup uses get_template only: a component that still spells it get_template_string gets nothing
+        def _get_template(self, context, component_id):
+            if hasattr(self, "get_template_string"):
+                return orig_get(_Shim(self), context, component_id)
+            return orig_get(self, context, component_id)
+        return _patched([(Component, "_get_template", _get_template)])
+
+    class _Shim:
+        """Delegates to a component but has no get_template_string."""
+
+        def __init__(self, comp):
+            object.__setattr__(self, "_c", comp)
+
+        def __getattr__(self, n):
+            if n == "get_template_string":
+                raise AttributeError(n)
+            return getattr(object.__getattribute__(self, "_c"), n)
+
+        @property
+        def __class__(self):
+            return type(object.__getattribute__(self, "_c"))
+
+    def method_result_ignored_when_static_present():
+        # a static template silently wins over what get_template returned (no refusal, dynamic choice lost)
+        def _get_template(self, context, component_id):
+            if self.template is not None and self.get_template_name(context) is None:
+                body = self.template
+                if isinstance(body, str):
+                    return dcomp.cached_template(template_string=body, name=self.template_file or self.name)
+                return body
+            return orig_get(self, context, component_id)
+        return _patched([(Component, "_get_template", _get_template)])
+
+    base = Check(PID, "quick", "other", silent=True)
+    items = export_all(base, "quick", small=True)
+
+    def body(chk: Check) -> None:
+        _body(chk, "quick", small=True, items=items)
+
+    rc = run_probes(PID, [("component-relative-path-not-converted", near_not_preferred),
+                          ("precedence-instead-of-refusal", precedence_instead_of_refusal),
+                          ("template-memoised-per-class", template_memoised_per_class),
+                          ("template-cache-keyed-by-component", cache_keyed_by_component),
+                          ("nothing-given-renders-empty", nothing_given_renders_empty),
+                          ("template_name-alias-dropped", template_name_alias_dropped),
+                          ("legacy-get_template_string-ignored", legacy_get_template_string_ignored),
+                          ("static-template-wins-over-get_template", method_result_ignored_when_static_present)],
+                    body)
+    # the proposed repairs: nothing fails and no finding key is produced any more
+    try:
+        cmgr = _repaired()
+    except MachineryError as e:
+        print(f"  repairs: not checked ({str(e)[:120]})")
+        return rc
+    chk = Check(PID, "quick", "other", silent=False)
+    chk.max_violation_files = 0
+    with cmgr:
+        _body(chk, "quick", small=True, items=items)
+    ok = chk.violations == 0 and not chk.known_hit
+    print(f"  repairs (proposed_fixes/X06-*.diff installed in-process): violations={chk.violations} "
+          f"known-findings-hit={sum(chk.known_hit.values())} -> {'clean' if ok else 'NOT CLEAN'}")
+    return rc if ok else 1
+
+
+def _redo(chain: "Chain", events: List[Dict[str, Any]]) -> List[Dict[str, Any]]:
+    """Re-execute a recorded list of events (same routes, pages with two components as recorded)."""
+    out: List[Dict[str, Any]] = []
+    n = 0
+    while n < len(events):
+        e = events[n]
+        if e["op"] == "clear":
+            clear_template_cache()
+            out.append(dict(e))
+            n += 1
+            continue
+        route = e.get("route", "py")
+        if route.endswith("-pair") and n + 1 < len(events) and events[n + 1].get("route") == route:
+            f = events[n + 1]
+            two = chain.render_pair((e["c"], e["sel"], 500 + n), (f["c"], f["sel"], 501 + n), route[:-5])
+            if two is not None:
+                out += two
+                n += 2
+                continue
+        out.append(chain.render(e["c"], e["sel"], v=500 + n, route=route[:-5] if route.endswith("-pair") else route))
+        n += 1
+    return out
+
+
 def replay(path: str) -> int:
     from . import boot
     boot.setup()
@@ -712,54 +1023,36 @@ def replay(path: str) -> int:
     world()
     if case.get("kind") == "export-row":
         size, cl = case["cfg"]
-        row = dict(case["row"])
-        row.setdefault("table", None)
-        if not row["hist"]:
-            # the admitted sets travel with the recorded events
-            print("chain:", json.dumps(row["k"]))
-            with env(size, cl):
-                chain = Chain(row["k"], case["forms"])
-                for src in chain.sources:
-                    print(src)
-                reset_template_cache()
-                bad = 0
-                for n, e in enumerate(d["detail"]["events"]):
-                    if e["op"] == "clear":
-                        clear_template_cache()
-                        continue
-                    ev = chain.render(e["c"], e["sel"], v=n, route=e.get("route", "py"))
-                    ok = ev["obs"] in e["exp"]
-                    bad += not ok
-                    print(f"render K{e['c']} sel={e['sel']} route={ev['route']}: observed {ev['obs']} {ev['exc']} "
-                          f"admitted {e['exp']} {'ok' if ok else 'MISMATCH'}")
-                chain.close()
-            return 1 if bad else 0
-        with env(size, cl):
-            evs, chain = run_row({**row, "table": []}, None, case["forms"], size)
-            chain.close()
-        bad = 0
-        for ev in evs:
-            if ev["op"] == "render":
-                ok = ev["obs"] in ev["exp"]
+        K = case["row"]["k"]
+        recorded = d["detail"]["events"]
+        forms = case["forms"]
+    elif case.get("kind") == "trace":
+        size, cl, K, recorded, forms = case["size"], case["cached_loader"], case["k"], case["events"], 0
+    else:
+        print("unknown replay kind")
+        return 2
+    print("chain:", json.dumps(K))
+    bad = 0
+    with env(size, cl):
+        chain = Chain(K, forms)
+        for src in chain.sources:
+            print(src)
+        reset_template_cache()
+        for e, ev in zip(recorded, _redo(chain, recorded)):
+            if ev["op"] == "clear":
+                print("clear template cache")
+                continue
+            line = f"render K{ev['c']} sel={ev['sel']} route={ev['route']}: observed {ev['obs']} {ev['exc']}"
+            if "exp" in e:
+                ok = ev["obs"] in e["exp"]
                 bad += not ok
-                print(f"render K{ev['c']} sel={ev['sel']}: observed {ev['obs']} {ev['exc']} admitted {ev['exp']} "
-                      f"{'ok' if ok else 'MISMATCH'}")
+                line += f" admitted {e['exp']} {'ok' if ok else 'MISMATCH'}"
             else:
-                print("clear")
-        return 1 if bad else 0
+                line += f" (recorded {e['obs']})"
+            print(line)
+        chain.close()
     if case.get("kind") == "trace":
-        with env(case["size"], case["cached_loader"]):
-            chain = Chain(case["k"], 0)
-            reset_template_cache()
-            for n, e in enumerate(case["events"]):
-                if e["op"] == "clear":
-                    clear_template_cache()
-                    print("clear")
-                    continue
-                ev = chain.render(e["c"], e["sel"], v=n, route=e.get("route", "py"))
-                print(f"render K{e['c']} sel={e['sel']}: observed {ev['obs']} {ev['exc']} (recorded {e['obs']})")
-            chain.close()
-        print("verdict of the specification: re-run the check with the same VERIF_SEED (Trace_X06)")
+        print("verdict of the specification on a trace: re-run the check with the same VERIF_SEED (Trace_X06); "
+              f"recorded clauses: {d['detail'].get('clauses')}")
         return 1
-    print("unknown replay kind")
-    return 2
+    return 1 if bad else 0
